@@ -24,6 +24,45 @@ pub struct Unit {
     pub alpha: Vec<Tok>,
 }
 
+/// exclusive alternatives of groups that share a switch: `{-v [--level L]} | {-v --out O FILE..}`
+pub fn alt_groups() -> Vec<(Opts, Vec<Tok>)> {
+    let v = || P::Switch(Names::both('v', "verbose"));
+    let l = || P::arg(Names::long("level"), Ty::Os).opt();
+    let o = || P::arg(Names::both('o', "out"), Ty::Os);
+    let r = || P::ReqFlag(Names::short('r'));
+    let templates: Vec<Vec<P>> = vec![
+        vec![v(), l()],
+        vec![v(), o()],
+        vec![v(), o(), P::pos(Ty::Os).many()],
+        vec![r(), v()],
+        vec![o(), l()],
+        vec![v(), o(), l()],
+    ];
+    let mut out = vec![];
+    for (i, a) in templates.iter().enumerate() {
+        for (j, b) in templates.iter().enumerate() {
+            if i == j {
+                continue;
+            }
+            let alt = P::Alt(vec![P::Map(P::Seq(a.clone()).bx(), "A".into()), P::Map(P::Seq(b.clone()).bx(), "B".into())]);
+            for nb in 0..3 {
+                let q = P::Switch(Names::short('q'));
+                let fields = match nb {
+                    0 => vec![alt.clone()],
+                    1 => vec![q, alt.clone()],
+                    _ => vec![alt.clone(), q],
+                };
+                let mut alpha = toks(&["-v", "--level=v", "--out", "-o=w", "--out=", "-r", "v", "w", "--"]);
+                if nb > 0 {
+                    alpha.push(Tok::s("-q"));
+                }
+                out.push((Opts::new(P::Seq(fields)), alpha));
+            }
+        }
+    }
+    out
+}
+
 fn equivalent(a: &Outcome, b: &Outcome) -> bool {
     match (a, b) {
         (Outcome::Value(x), Outcome::Value(y)) => x == y,
@@ -122,8 +161,21 @@ impl Check for C03 {
         tails.extend(fam::pos_tails());
         tails.extend(fam::cmd_tails(seed, false, false));
         for l in fam::conventional(2, &tails, seed) {
-            let alpha = alphabet(&l, AlphaStyle::Compact);
+            let mut alpha = alphabet(&l, AlphaStyle::Compact);
+            // an explicitly empty attached value is a whole occurrence too
+            for n in &l.named {
+                if n.kind.is_arg() {
+                    if let Some(lg) = n.names.longs.first() {
+                        alpha.push(Tok::s(&format!("--{}=", lg)));
+                    } else if let Some(c) = n.names.shorts.first() {
+                        alpha.push(Tok::s(&format!("-{}=", c)));
+                    }
+                }
+            }
             out.push(serde_json::to_value(Unit { opts: l.to_opts(), len: tier.pick(3, 4), family: "conventional".into(), alpha }).unwrap());
+        }
+        for (o, alpha) in alt_groups() {
+            out.push(serde_json::to_value(Unit { opts: o, len: tier.pick(4, 5), family: "alt-groups".into(), alpha }).unwrap());
         }
         out
     }
@@ -133,7 +185,7 @@ impl Check for C03 {
             Ok(p) => p,
             Err(_) => return,
         };
-        let t = table(&u.opts);
+        let t = if u.family == "alt-groups" { fine_table(&u.opts) } else { table(&u.opts) };
         let alpha = if u.alpha.is_empty() { shape_alphabet(&u.opts) } else { u.alpha.clone() };
         tree(&alpha, u.len, &mut |argv| {
             if argv.len() >= 2 {
@@ -150,7 +202,7 @@ impl Check for C03 {
             Ok(p) => p,
             Err(_) => return,
         };
-        let t = table(&u.opts);
+        let t = if u.family == "alt-groups" { fine_table(&u.opts) } else { table(&u.opts) };
         let mut c2 = Ctx::new(ctx.tier, ctx.seed);
         check_vector(unit, &u.family, &p, &t, &base, &mut c2);
         for (k, (n, v)) in c2.s.violations {
@@ -165,7 +217,7 @@ impl Check for C03 {
         ctx.s.evaluations += c2.s.evaluations;
     }
     fn rule(&self) -> String {
-        "definitions = all ordered tuples of <=2 (thorough: 3) distinct field kinds from 12 (switch, argument, repeated argument, bare and repeated choice, optional and repeated group, hidden argument with fallback, guarded u32, counter, parse+fallback, optional choice with a defaulted branch) x 4 tails, plus the conventional family; base vectors = every vector of the token tree; each base vector that is a sequence of whole occurrences is cut into blocks (flag / argument with its value / word; nothing crosses a command name or `--`) and EVERY permutation that keeps the relative order of blocks feeding one field and of the words is run and compared with the base outcome (equal value, or same failure class); evaluation = one run; non-trivial = base vector with at least one different permuted vector and at least one accepted order".into()
+        "definitions = all ordered tuples of <=2 (thorough: 3) distinct field kinds from 12 (switch, argument, repeated argument, bare and repeated choice, optional and repeated group, hidden argument with fallback, guarded u32, counter, parse+fallback, optional choice with a defaulted branch) x 4 tails, plus the conventional family (alphabet with explicitly empty attached values `--name=`), plus exclusive alternatives of groups that share a switch ({-v [--level L]} | {-v --out O FILE..}, 30 ordered pairs of 6 group templates, with and without a neighbouring switch; here a field is a leaf parser, so items of one group and of different branches are permuted freely); base vectors = every vector of the token tree; each base vector that is a sequence of whole occurrences is cut into blocks (flag / argument with its value / word; nothing crosses a command name or `--`) and EVERY permutation that keeps the relative order of blocks feeding one field and of the words is run and compared with the base outcome (equal value, or same failure class); evaluation = one run; non-trivial = base vector with at least one different permuted vector and at least one accepted order".into()
     }
     fn bounds(&self, tier: Tier) -> Value {
         json!({"fields_per_level": tier.pick("<=2 + tail", "<=3 + tail"), "vector_length": tier.pick("4 (shapes), 3 (conventional)", "5 (shapes), 4 (3-field shapes, conventional)")})
